@@ -20,6 +20,7 @@ def _workspace(repo):
     sh = extract.hashlib.sha256()
     for p in sorted(glob.glob(os.path.join(SRC, "src", "*.rs")) + glob.glob(os.path.join(SRC, "examples", "*.rs"))):
         sh.update(open(p, "rb").read())
+    sh.update(extract.driver_hash().encode())
     return os.path.join(extract.CACHE, "witness", h + "-" + sh.hexdigest()[:8])
 
 
